@@ -217,7 +217,8 @@ def acos_with_constant(rec, env):
 
 class C31(Check):
     pid = "C31"
-    exe = "driver"
+    exe = "driver_solve"          # core ops only; the per-area binary is not relinked by other areas' builds
+    builds = [("main", ("driver_solve",))]
     timeout = 6.0
     strict_crosscheck = False
     case_timeout = 40
